@@ -270,6 +270,25 @@ func (e *exec) apply(si int) {
 		}}), "create foreign revision")
 		e.m.foreign = true
 		e.logf("step %d: a revision labelled for %q but controlled by a foreign uid (rev=99) appears", si, compName)
+	case "unlabel-old":
+		// e.g. revisions written by a release that used another label key: every revision but the
+		// highest-numbered one loses its composition-hash label (the name label stays)
+		var top map[string]any
+		for _, o := range e.ownRevisions() {
+			if top == nil || revNum(o) > revNum(top) {
+				top = o
+			}
+		}
+		n := 0
+		for _, o := range e.ownRevisions() {
+			if top != nil && sim.Str(o, "metadata", "name") == sim.Str(top, "metadata", "name") {
+				continue
+			}
+			unstructured.RemoveNestedField(o, "metadata", "labels", labelCompHash)
+			must(e.user.Update(ctx, &unstructured.Unstructured{Object: o}), "remove the hash label")
+			n++
+		}
+		e.logf("step %d: %d older revisions lose their composition-hash label", si, n)
 	case "foreign-remove":
 		if o := e.w.GetObj(sim.Key{Group: revGK.Group, Kind: revGK.Kind, Name: foreignRevName}); o != nil {
 			must(e.user.Delete(ctx, &unstructured.Unstructured{Object: o}), "delete foreign revision")
@@ -803,6 +822,7 @@ func main() {
 	c.Rule += " XR xr-switch: the user edits its update policy and revision selector before every XR point (rotation over Automatic / Automatic+selector / Manual); the reference must follow the edited spec, also to a lower-numbered revision."
 	c.Rule += " " + "Histories with a finalizer-held deleted highest revision and its release; the real revision-created event handler is held against the real fetcher (every XR that would move must have been enqueued)."
 	c.Rule += " " + "One long-lived fetcher per execution; cache-reader List semantics for the revision controller; a 125-build history."
+	c.Rule += " " + "Histories in which older revisions lose their composition-hash label before further edits."
 	c.Rule += " " + "The whole XR reconciler over Manual / Automatic XRs that carry a revision reference but get their Composition through the XRD's default or enforced reference or their selector."
 	c.Assumptions = []string{
 		"sim implements the apiserver rules listed in DESIGN.md 2.2; user actions and reconciles do not overlap in time (the revision controller is a single worker per Composition)",
